@@ -156,9 +156,8 @@ def generate(c: Contract) -> Generated:
         if cal_ax:
             for o in g.obls:
                 o.hyps = o.hyps + cal_ax
-        if ex.fresh_objs:
-            for o in g.obls:
-                o.hyps = o.hyps + alloc_axioms(o.hyps + [o.goal], ex.known_refs)
+        for o in g.obls:
+            o.hyps = o.hyps + alloc_axioms(o.hyps + [o.goal], ex.known_refs, with_alloc=bool(ex.fresh_objs))
     except Unsupported as e:
         g.undecided.append(f"unsupported: {e}")
     except T.TypeErr as e:
